@@ -234,3 +234,64 @@ pub fn h_c33_cf_rule_formulas() {
     }
     reach("C33.cf_rule");
 }
+
+// ---- values under structural edits (C12, C13, C15): the real evaluator before and after the edit
+use crate::cell::CellValue;
+use std::collections::HashMap as ValMap;
+
+/// Sheet1: B2 = x, C3 = y (from a menu of four numbers), G20 = `=B2+$C$3`; Sheet2: B3 = `=Sheet1!B2+1`
+fn value_model(x: f64, y: f64) -> Option<Model<'static>> {
+    let mut ws = empty_sheet("Sheet1", 1);
+    let mut r2: ValMap<i32, Cell> = ValMap::new();
+    r2.insert(2, Cell::NumberCell { v: x, s: 0 });
+    ws.sheet_data.insert(2, r2);
+    let mut r3: ValMap<i32, Cell> = ValMap::new();
+    r3.insert(3, Cell::NumberCell { v: y, s: 0 });
+    ws.sheet_data.insert(3, r3);
+    let mut model = model_from_workbook(workbook_with_cells(vec![ws, empty_sheet("Sheet2", 2)]));
+    if model.set_user_input(0, 20, 7, "=B2+$C$3".to_string()).is_err() { return None; }
+    if model.set_user_input(1, 3, 2, "=Sheet1!B2+1".to_string()).is_err() { return None; }
+    model.evaluate();
+    Some(model)
+}
+const VALS: [f64; 4] = [1.5, -2.0, 4.0, 0.25];
+fn fin_or_num_error(r: f64) -> CellValue { if r.is_finite() { CellValue::Number(r) } else { CellValue::String("#NUM!".to_string()) } }
+
+/// edit: 0 insert rows, 1 insert columns, 2 delete rows, 3 delete columns, 4 move rows, 5 move columns
+fn values_case(edit: u8, id: &'static str) {
+    // the moved cells are re-entered through their text: numbers that print as plain decimals
+    let (x, y) = (VALS[any_usize_to(VALS.len() - 1)], VALS[any_usize_to(VALS.len() - 1)]);
+    let entered = value_model(x, y);
+    check("C12.values.entered", entered.is_some());
+    let mut model = match entered { Some(m) => m, None => return };
+    let want1 = || fin_or_num_error(x + y);
+    let want2 = || fin_or_num_error(x + 1.0);
+    check("C12.values.before", (model.get_cell_value_by_index(0, 20, 7) == Ok(want1())) & (model.get_cell_value_by_index(1, 3, 2) == Ok(want2())));
+    let rows = edit % 2 == 0;
+    let (fr, fc) = (20, 7);
+    let (p, k) = (any_i32_in(1, 25), any_i32_in(1, 4));
+    let d = any_i32_in(-2, 2);
+    let done = if edit == 0 { model.insert_rows(0, p, k) } else if edit == 1 { model.insert_columns(0, p, k) }
+        else if edit == 2 { assume(p + k <= fr); model.delete_rows(0, p, k) } else if edit == 3 { assume(p + k <= fc); model.delete_columns(0, p, k) }
+        else if edit == 4 { assume((d != 0) & (k <= 2)); model.move_rows_action(0, p, k, d) } else { assume(d != 0); model.move_columns_action(0, p, 1, d) };
+    if done.is_ok() {
+        model.evaluate();
+        // where the formula cell went
+        let line = if rows { fr } else { fc };
+        let new_line = if edit <= 1 { pi_insert(line, p, k) } else if edit <= 3 { line - k } else if edit == 4 { sigma_block(line, p, k, d) } else { sigma_block(line, p, 1, d) };
+        let (nr, nc) = if rows { (new_line, fc) } else { (fr, new_line) };
+        // a deletion that takes a referenced line away turns the reference into #REF!
+        let hit = |l: i32| (edit == 2 || edit == 3) && p <= l && l < p + k;
+        let (lost_b2, lost_c3) = (hit(2), hit(3));
+        let got1 = model.get_cell_value_by_index(0, nr, nc);
+        let got2 = model.get_cell_value_by_index(1, 3, 2);
+        let ref_err = || CellValue::String("#REF!".to_string());
+        check(id, (got1 == Ok(if lost_b2 || lost_c3 { ref_err() } else { want1() })) & (got2 == Ok(if lost_b2 { ref_err() } else { want2() })));
+    }
+}
+pub fn h_c12_values_insert_rows() { values_case(0, "C12.values_insert_rows.values_kept"); reach("C12.values_insert_rows"); }
+pub fn h_c12_values_insert_columns() { values_case(1, "C12.values_insert_columns.values_kept"); reach("C12.values_insert_columns"); }
+pub fn h_c13_values_delete_rows() { values_case(2, "C13.values_delete_rows.values_kept_or_ref_error"); reach("C13.values_delete_rows"); }
+pub fn h_c13_values_delete_columns() { values_case(3, "C13.values_delete_columns.values_kept_or_ref_error"); reach("C13.values_delete_columns"); }
+pub fn h_c15_values_move_rows() { values_case(4, "C15.values_move_rows.values_kept"); reach("C15.values_move_rows"); }
+pub fn h_c15_values_move_columns() { values_case(5, "C15.values_move_columns.values_kept"); reach("C15.values_move_columns"); }
